@@ -367,6 +367,141 @@ def parse_statement(fb, text):
     return ("ok", r)
 
 
+def parse_program(fb, text, max_statements=4):
+    """the statements of `text` parsed one after the other by ONE parser whose syntax environment starts empty and keeps what
+    define-syntax binds (so that a macro defined by the first form is expanded in the next): [("ok", value) | ("error", kind, loc) |
+    ("stuck", why)], one per statement read"""
+    raw = []
+    toks = lexrun.lex(fb, text, max_tokens=160, raw=raw)
+    if toks and toks[-1][0] in ("stuck", "panic"):
+        return [("stuck", "lexer: %s" % (toks[-1][1],))]
+    ts = TokenStream(raw)
+    try:
+        names = [f["name"] for f in fb.adt("parser::parser::Parser")["variants"][0]["fields"]]
+        adv = fb.find("parser::parser::Parser::advance")
+        pc = fb.find("parser::parser::Parser::parse_current")
+    except (mir.AnchorMissing, KeyError, TypeError) as e:
+        return [("stuck", "parser entry points: %s" % e)]
+    if getattr(adv, "missing", False) or getattr(pc, "missing", False) or not {"current", "lexer", "location"} <= set(names):
+        return [("stuck", "the parser is not driven by advance / parse_current on this tree")]
+
+    class Scope:
+        def __init__(self):
+            self.d = {}
+    senv = Scope()
+    P = [UNKNOWN for _ in names]
+    P[names.index("current")] = none()
+    P[names.index("lexer")] = ts
+    P[names.index("location")] = none()
+    if "syntax_env" in names:
+        P[names.index("syntax_env")] = senv
+
+    def icpt(mc, c, a, tt, g):
+        a0 = a[0] if a else None
+        if a0 is ts:
+            if c.endswith("Peekable::peek") or c.endswith("Peekable::peek_mut"):
+                return some(ts.items[ts.pos]) if ts.pos < len(ts.items) else none()
+            if c.endswith("Peekable as std::iter::Iterator>::next"):
+                if ts.pos < len(ts.items):
+                    ts.pos += 1
+                    return some(ts.items[ts.pos - 1])
+                return none()
+        if c.startswith("environment::LexicalScope::") and a0 is senv:
+            end = c.rsplit("::", 1)[-1]
+            if end in ("get", "get_mut"):
+                k_ = a[1]
+                return some(senv.d[k_]) if isinstance(k_, str) and k_ in senv.d else none()
+            if end == "new_child":
+                return senv
+            if end == "define":
+                if isinstance(a[1], str):
+                    senv.d[a[1]] = a[2]
+                return []
+        return NOT
+    out = []
+    for _ in range(max_statements):
+        try:
+            r0 = Machine(fb, intercept=icpt, max_visits=max(40, len(raw) + 8), budget=6000).run(adv, [P, 1])
+            if isinstance(r0, Enum) and getattr(r0, "name", None) == "Err":
+                out.append(("error", _err_kind(fb, r0), _err_loc(r0)))
+                break
+            cur = P[names.index("current")]
+            if isinstance(cur, Enum) and cur.variant == 0 and not cur.fields:
+                break                                   # end of input
+            mc = Machine(fb, intercept=icpt, max_visits=max(60, len(raw) + 8), budget=40000)
+            r = mc.run(pc, [P] + ([senv] if pc.arg_count >= 2 else []))
+        except (absint.Stuck, absint.Loop) as e:
+            out.append(("stuck", str(e)))
+            break
+        if not isinstance(r, Enum):
+            out.append(("stuck", "result %r" % (r,)))
+            break
+        if getattr(r, "name", None) == "Err" or r.variant == 1:
+            out.append(("error", _err_kind(fb, r), _err_loc(r)))
+            break
+        out.append(("ok", r))
+    return out
+
+
+def symbol_locations(v, out, depth=40):
+    """{symbol name: [locations]} of every Located whose data is a Symbol expression / datum, anywhere in a parsed statement"""
+    if depth < 0:
+        return
+    pair = v.fields if isinstance(v, Enum) else (v if isinstance(v, list) else None)
+    if pair is not None and len(pair) == 2 and isinstance(pair[0], Enum) and len(pair[0].fields) == 1 and isinstance(pair[0].fields[0], str) \
+            and isinstance(pair[1], Enum) and (pair[1].variant == 0 or (pair[1].fields and isinstance(pair[1].fields[0], list))):
+        loc = pair[1].fields[0] if pair[1].variant == 1 and pair[1].fields else None
+        out.setdefault(pair[0].fields[0], []).append([absint.deref(q) for q in loc] if isinstance(loc, list) else None)
+    for x in (pair or []):
+        symbol_locations(x, out, depth - 1)
+
+
+def rule_macro_argument_locations(ctx, rule):
+    """identifiers the user writes as arguments of a macro use keep their own positions through the expansion — the first, the
+    second and the later items matched by an ellipsis variable, a single variable, arguments of a derived-form-like nesting — so that
+    an unbound variable among them is reported where it stands.  -> rows decided"""
+    from .ctx import where_of
+    fb = ctx.fb()
+    pc = fb.find("parser::parser::Parser::parse_current", required=False)
+    where = where_of(pc) if pc is not None and not getattr(pc, "missing", False) else None
+    programs = [
+        ("ellipsis-run", "(define-syntax m1 (syntax-rules () ((m1 v w ...) (k2 v w ...))))\n(m1 a1\n   a2 a3\n      a4)"),
+        ("nested-run", "(define-syntax m2 (syntax-rules () ((m2 (n i) ...) ((lambda (n ...) n ...) i ...))))\n(m2 (p1 b1)\n  (p2 b2)\n  (p3 b3))"),
+        ("single-variables", "(define-syntax m3 (syntax-rules () ((m3 x y) (k3 y x))))\n(m3 c1\n  c2)"),
+    ]
+    decided = 0
+    for label, text in programs:
+        key = "macro-argument-locations/%s" % label
+        rs = parse_program(fb, text + " ")
+        if len(rs) < 2 or rs[0][0] != "ok" or rs[1][0] != "ok":
+            bad = next((r for r in rs if r[0] != "ok"), ("stuck", "fewer statements than written"))
+            ctx.undecided(rule, key, "cannot follow the parser on the macro definition and its use (%s: %s)" % (bad[0], bad[1]), where)
+            continue
+        locs = {}
+        symbol_locations(rs[1][1], locs)
+        import re
+        lines = text.split("\n")
+        wrong = []
+        names_ = sorted(set(re.findall(r"\b[abc][0-9]\b", text)))
+        for n in names_:
+            li = next(i for i, l in enumerate(lines) if re.search(r"\b%s\b" % n, l))
+            col = re.search(r"\b%s\b" % n, lines[li]).start()
+            want = [[li + 1, col + 1], [li + 1, col + 1 + len(n)]]          # (the lexer's position of a token: its start or just past its end)
+            got = locs.get(n)
+            if not got:
+                wrong.append((n, "absent from the expansion", want[0]))
+            elif any(g not in want for g in got):
+                wrong.append((n, got, want[0]))
+        decided += 1
+        ctx.inst(rule, key, {"identifiers": names_, "all_keep_their_position": not wrong})
+        ctx.oblige(not wrong)
+        if wrong:
+            n, got, want = wrong[0]
+            ctx.report(rule, key, "in the expansion of %r the identifier %s the user wrote at %s is located at %s: an unbound variable there is "
+                       "reported away from the identifier" % (text.split("\n", 1)[1], n, want, got), where)
+    return decided
+
+
 def _err_loc(r):
     x = r.fields[0] if isinstance(r, Enum) and r.fields else None
     loc = x.fields[1] if isinstance(x, Enum) and len(x.fields) == 2 else (x[1] if isinstance(x, list) and len(x) == 2 else None)
